@@ -13,7 +13,8 @@ def cfg(reqs, flush_records=True, with_flush=True, inv="INVARIANTS Truthful OneB
 def run(ctx):
     q = ctx.quick()
     # two interleaved requests over all scripts (without Flush to keep the product small), one request over all scripts with Flush
-    r = ctx.tlc("logger", "Relay", cfg("1, 2", with_flush=False), workers=16, timeout=1800, xmx="12g", tag="Relay 2 requests")
+    # (thorough: the two interleaved requests range over the scripts with Flush as well)
+    r = ctx.tlc("logger", "Relay", cfg("1, 2", with_flush=not q), workers=16, timeout=3000, xmx="16g", tag="Relay 2 requests")
     if r.violated:
         raise vlib.Infra("spec-level counterexample (model, not code):\n" + r.trace[:3000])
     r = ctx.tlc("logger", "Relay", cfg("1"), workers=4, timeout=600, tag="Relay 1 request with Flush")
@@ -54,7 +55,7 @@ def run(ctx):
         "traces_validated_against_impl": stats["runs"], "evaluations": stats["runs"],
         "distinct_nontrivial": len([s_ for s_ in scen if s_["script"]["panicAt"] > 0]),
         "rule": "every handler script of the model (WriteHeader 201/404/503 or none, body or not, Flush or not, panic at each position "
-                "with 6 value kinds incl. nil and an error wrapping ErrAbortHandler) x 3 log handlers x matched/unmatched route x real "
+                "with 9 value kinds incl. nil, an error wrapping ErrAbortHandler, typed nil pointers and values whose String / Error method panics) x 3 log handlers x matched/unmatched route x real "
                 "HTTP server (escaped panics recorded) / recorder, bodies written through eight different writer paths incl. zero-length writes, then 16 clients in flight with random scripts; non-trivial = scripts with a panic",
         "exhaustive": True, "scripts": len(scen), "runs": stats["runs"], "mismatches": len(mm),
     })
